@@ -343,7 +343,7 @@ def run_generate_between(ctx, rng):
         jobs = []
         for x in range(njobs):
             deps = [{"on": rng.randrange(x), "how": rng.choice(["direct", "lst"])}] if x > 0 and rng.random() < 0.5 else []
-            jobs.append({"x": x, "deps": deps, "hold": 0})
+            jobs.append({"x": x, "deps": deps, "hold": 0, "mode": rng.choice(["ok", "ok", "exit0"])})  # exit0: the body ends with sys.exit(0)
         w["jobs"] = jobs
         env = case.job_env(go=False)
         order = ["normal", "generate", "normal"] if rng.random() < 0.7 else ["normal", "generate", "generate", "normal"]
